@@ -223,6 +223,22 @@ func c18ReadOps() []c18ReadOp {
 			}
 			return fmt.Sprint(idx)
 		}},
+		{"MultIterator(X,private)", func(s *c18Shared) bool { return s.kind == "mat" && s.t == model.TF64 }, func(s *c18Shared, e *c18Env) string {
+			// the multi-tensor iterator: built concurrently by every goroutine over a shared and a private tensor
+			it := tensor.NewMultIterator(s.op.D.Info(), e.privF64.Info())
+			var idx []int
+			for {
+				_, err := it.Next()
+				if err != nil {
+					break
+				}
+				idx = append(idx, it.LastIndex(0), it.LastIndex(1))
+				if len(idx) > 100 {
+					break
+				}
+			}
+			return fmt.Sprint(idx)
+		}},
 		{"Clone", anyT, func(s *c18Shared, e *c18Env) string { return digestTensor(s.op.D.Clone().(*tensor.Dense), nil) }},
 		{"Materialize", anyT, func(s *c18Shared, e *c18Env) string { return digestTensor(s.op.D.Materialize(), nil) }},
 		{"SafeT", isMat, func(s *c18Shared, e *c18Env) string { r, err := s.op.D.SafeT(); return digestTensor(r, err) }},
